@@ -465,18 +465,24 @@ func c17run(c *core.Ctx, r *core.Reporter) {
 					body = g.Call.StaticCallee()
 				}
 				rec := false
-				if body != nil {
-					for _, cb := range body.Blocks {
-						for _, cin := range cb.Instrs {
-							if d, ok := cin.(*ssa.Defer); ok {
-								if df := deferredFn(d); df != nil && callsRecover(df) {
-									rec = true
-								}
+				if body != nil && len(body.Blocks) > 0 {
+					// the deferred recover must be registered in the entry block before any call executes
+				entry:
+					for _, cin := range body.Blocks[0].Instrs {
+						switch x := cin.(type) {
+						case *ssa.Defer:
+							if df := deferredFn(x); df != nil && callsRecover(df) {
+								rec = true
+								break entry
+							}
+						case *ssa.Call:
+							if _, isBuiltin := x.Call.Value.(*ssa.Builtin); !isBuiltin {
+								break entry
 							}
 						}
 					}
 				}
-				r.Decide(rec, rule, b.Key()+"|goroutine recovers", c.Pos(g.Pos()), fmt.Sprintf("the routine body defers a function that calls recover: %v", rec))
+				r.Decide(rec, rule, b.Key()+"|goroutine recovers", c.Pos(g.Pos()), fmt.Sprintf("the routine body defers a function that calls recover before its first call: %v", rec))
 			}
 		}
 	}
